@@ -436,6 +436,9 @@ def errors_x(g, thorough, count):
                 ("jj(aa)\njj(bb)\njj(cc)\njj(dd)\njj(ee)\njj(ff)", "!refused"), ("jj(zz)\njj(yy)\njj(xx)\njmp ww\njj(vv)", "!refused"),
                 ("six(u1,u2,u3,u4,u5,u6)", "!refused"), ("six(k6,k5,k4,k3,k2,k1)", "!refused"), ("six(lab,q2,lab,q1,start,q0)", "!refused"),
                 ("six(m3,m1,m2,m1,m3,m2)\nsix(n1,n2,n3,n4,n5,n6)", "!refused"),
+                # several forward references recorded at ONE position (one macro use): an undefined one followed by defined ones
+                ("six(q1,q2,q3,q4,q5,lab)", "!refused"), ("six(lab,lab,lab,lab,nolabel,lab)", "!refused"), ("six(nolabel,lab,lab,lab,lab,lab)", "!refused"),
+                ("six(lab,lab,lab,lab,lab,lab)", "!accepted"),
                 ("setb(word w)", "!refused"), ("setb(WORD w)", "!refused"), ("ldw(word w)", "!accepted"), ("ldw(WORD w)", "!accepted"), ("ldw(byte v)", "!refused"),
                 ("setb(byte v)", "!accepted"), ("setb(byte [bx])", "!accepted"), ("ldw(word [bx,si])", "!accepted"), ("ldw(byte [bx])", "!refused"),
                 ("addn(ax, word w)", "!accepted"), ("addn(al, byte v)", "!accepted"), ("addn(ax, byte v)", "!refused"), ("setb(255)", "!accepted"), ("setb(256)", "!refused")):
@@ -474,6 +477,20 @@ def errors_x(g, thorough, count):
         out.append(("x: %s [%d]\nstart:\nhlt\n" % (d, mx + 1), "!refused"))
         out.append(("x: %s [%d]\ny: dw 1\nstart:\nhlt\n" % (d, mx), "!refused"))   # one / two bytes too many
         out.append(("x: %s [65536]\nstart:\nhlt\n" % d, "!refused"))
+    out += long_string_cases()
+    return out
+
+def long_string_cases():
+    """(source, verdict): single strings / totals whose bytes exceed one 64 KiB segment must be diagnosed (C12, C14);
+    the counts are far from the implementation's own per-string cap so that only the property decides"""
+    out = []
+    tail = "y: db 1\nstart:\nmov ax, offset y\nprint reg\nhlt\n"
+    for d, nchars in (("dw", 32768), ("dw", 33000), ("dw", 40000), ("DW", 65537), ("db", 65536), ("db", 70000), ("DB", 131075)):
+        out.append(("x: %s \"%s\"\n" % (d, "A" * nchars) + tail, "!refused"))
+    for pre, d, nchars, verdict in (("a: db [60000]\n", "dw", 3000, "!refused"), ("a: db [60000]\n", "dw", 1000, "!accepted"),
+                                    ("a: dw [30000]\n", "db", 5600, "!refused"), ("a: dw [30000]\n", "db", 5000, "!accepted"),
+                                    ("a: db [100]\n", "dw", 32760, "!refused"), ("set 5\na: db [65000]\n", "db", 600, "!refused")):
+        out.append((pre + "x: %s \"%s\"\n" % (d, "Z" * nchars) + tail, verdict))
     return out
 
 def errors(g, thorough, count):
@@ -725,10 +742,22 @@ def run_prog(g, with_int3=False, with_tf=False):
         seq.insert(r.randrange(1, len(seq) + 1), r.choice(["m_out(bx)", "m_in(dx)", "m_out(ax)\nm_in(bx)"]))
     if with_tf:
         seq.insert(1, "mov ax, 0x0100\npush ax\npopf")
+        if r.random() < 0.5:
+            # stepping that ENDS: the program clears the trap flag again after a few stepped instructions and then
+            # produces run-time messages (print, breakpoint, divide error / unsupported service) that must cite their own lines
+            k = r.randrange(2, len(seq) + 1)
+            seq.insert(k, r.choice(["pushf\npop ax\nand ax, 0xFEFF\npush ax\npopf", "mov ax, 0\npush ax\npopf", "inc bx\npushf\npop dx\nand dx, 65279\npush dx\npopf\nnop"]))
+            for m in r.sample(["print reg", "int 3", "print flags", "print mem 0 : 3", "inc cx\nint 3\nprint reg"], r.randrange(1, 4)):
+                seq.insert(r.randrange(k + 1, len(seq) + 1), m)
+            if r.random() < 0.4:
+                seq.append(r.choice(["mov dl, 0\ndiv dl", "mov ah, 0x77\nint 0x21", "mov ah, 0x55\nint 0x10"]))
     seq.append(labels[nblocks] + ":")
     tail = r.choice(["hlt", "", "print reg", "hlt\nmov ax, 0xDEAD\nprint reg",
                      "jmp ZEND\nmov ax, 0xDEAD\nhlt\nZEND:", "cmp ax, ax\njz ZEND\nhlt\nZEND:", "jmp ZE2\nZE1:\nhlt\nZE2:\njmp ZE1"])
     main = "\n".join(seq) + "\n" + tail
+    if fns and nblocks >= 2 and r.random() < 0.15:
+        # labels and procedures are separate name spaces: a (forward) label named like an earlier procedure
+        main = re.sub(r"\b%s\b" % r.choice(labels[1:]), r.choice(fns), main)
     if r.random() < 0.5:
         main = "start:\n" + main
     else:
@@ -762,6 +791,8 @@ def cli_cases(g, group, thorough):
     elif group == "data":
         for c in data_cases(g, thorough, n(400, 3000)):
             out.append(("-", c.replace("hlt\n", "print mem 0 -> 40\nhlt\n"), ""))
+        for c, verdict in long_string_cases():
+            out.append(("-", c, "", verdict))
     elif group == "shapes":
         # every instruction alternative, executed (the printer and the interpreter are the judges)
         for c in shapes(g, False)[:: (1 if thorough else 4)]:
